@@ -250,7 +250,7 @@ async fn run_t<TC: ModelCfg>(spec: Spec) -> Out {
         let mut inserted: Vec<AzksElement> = vec![];
         let interior: Vec<&&TreeNode> = cut.iter().filter(|n| n.node_type != TreeNodeType::Leaf).collect();
         let leafs: Vec<&&TreeNode> = cut.iter().filter(|n| n.node_type == TreeNodeType::Leaf).collect();
-        let strat = rng.below(12);
+        let strat = rng.below(15);
         let mut expect_semantic_loss = false;
         let name = match strat {
             0 | 1 => {
@@ -354,6 +354,47 @@ async fn run_t<TC: ModelCfg>(spec: Spec) -> Out {
                 unchanged.retain(|u| u.label != x.label);
                 inserted.push(AzksElement { label: x.label, value: x.hash });
                 "redate_leaf"
+            }
+            11 => {
+                // claim that the earlier tree was empty: no unchanged nodes at all, everything "inserted" afresh
+                unchanged.clear();
+                inserted.push(AzksElement { label: nl(&rand32(&mut rng)), value: AzksValue(rand32(&mut rng)) });
+                if let Some((l, v)) = spec.additions.first() {
+                    inserted.push(AzksElement { label: nl(l), value: AzksValue(*v) });
+                }
+                expect_semantic_loss = true;
+                "earlier_tree_claimed_empty"
+            }
+            12 => {
+                // an unchanged interior node whose label carries stray bits beyond its length, shadowed from below
+                if interior.is_empty() {
+                    continue;
+                }
+                let x = **rng.pick(&interior);
+                if x.label.label_len >= 250 {
+                    continue;
+                }
+                for u in unchanged.iter_mut() {
+                    if u.label == x.label {
+                        let i = x.label.label_len + 1 + rng.below(4) as u32;
+                        u.label.label_val[(i / 8) as usize] |= 1 << (7 - (i % 8));
+                    }
+                }
+                inserted.push(AzksElement { label: nl(&extend_label(&mut rng, &x.label, Some(0))), value: AzksValue(rand32(&mut rng)) });
+                inserted.push(AzksElement { label: nl(&extend_label(&mut rng, &x.label, Some(1))), value: AzksValue(rand32(&mut rng)) });
+                expect_semantic_loss = true;
+                "shadow_under_label_with_stray_bits"
+            }
+            13 => {
+                // a single unchanged element (the whole earlier tree as one node is not possible: the child of a one-sided
+                // root is) plus a shadowing leaf
+                if unchanged.len() != 1 || interior.is_empty() {
+                    continue;
+                }
+                let x = **rng.pick(&interior);
+                inserted.push(AzksElement { label: nl(&extend_label(&mut rng, &x.label, None)), value: AzksValue(rand32(&mut rng)) });
+                expect_semantic_loss = true;
+                "shadow_single_unchanged_element"
             }
             _ => {
                 // additions below or beside a random cut (mostly overlapping an unchanged node)
